@@ -639,4 +639,46 @@ func RKeyInj(c *core.Ctx) {
 		}
 		c.Check(lossy == token.NoPos, name+" / rune values are encoded injectively", fn.Pos(), "%s at %s: surrogate halves and out-of-range values all become U+FFFD, so distinct classes get the same key (%d calls inspected)", what, p.Pos(lossy), n)
 	}
+	// the string table: no map of package syntax is keyed by string([]rune), which is lossy in the same way
+	for _, fn := range p.ModuleFuncs() {
+		if core.FnPkgPath(fn) != core.PkgSyntax {
+			continue
+		}
+		for _, b := range fn.Blocks {
+			for _, ins := range b.Instrs {
+				cv, ok := ins.(*ssa.Convert)
+				if !ok {
+					continue
+				}
+				if bt, ok := cv.Type().Underlying().(*types.Basic); !ok || bt.Info()&types.IsString == 0 {
+					continue
+				}
+				sl, ok := cv.X.Type().Underlying().(*types.Slice)
+				if !ok {
+					continue
+				}
+				if eb, ok := sl.Elem().Underlying().(*types.Basic); !ok || eb.Kind() != types.Int32 {
+					continue
+				}
+				asKey := false
+				for _, r := range core.Referrers(cv) {
+					switch x := r.(type) {
+					case *ssa.Lookup:
+						if x.Index == ssa.Value(cv) {
+							asKey = true
+						}
+					case *ssa.MapUpdate:
+						if x.Key == ssa.Value(cv) {
+							asKey = true
+						}
+					}
+				}
+				if !asKey {
+					continue
+				}
+				c.Visit(core.SSAName(fn))
+				c.Bad(core.SSAName(fn)+" / a []rune is not turned into a map key by string()", cv.Pos(), "string([]rune) replaces every surrogate half and out-of-range value by U+FFFD: two different literals get the same key and share one table entry (a\\ud800b and a\\ud801b)")
+			}
+		}
+	}
 }
